@@ -1,6 +1,6 @@
 
 (* ---- C17 (and the end-rate clause of C02): rate_t3 and max_rate_t3 as they are in the source now = Model/EbbCalc.v ---- *)
 Lemma rate_t3_eq : forall time rate accel jerk, t_rate_t3 time rate accel jerk = rate_t3 time rate accel jerk.
-Proof. timeout 30 reflexivity. Qed.
+Proof. kernel_eq_zq. Qed.
 Lemma max_rate_t3_eq : forall time rate accel jerk, t_max_rate_t3 time rate accel jerk = max_rate_t3 time rate accel jerk.
-Proof. timeout 30 reflexivity. Qed.
+Proof. kernel_eq_zq. Qed.
